@@ -1,5 +1,5 @@
 import sys, time
-sys.path.insert(0,'/verif')
+import os; sys.path.insert(0, os.path.dirname(os.path.dirname(os.path.abspath(__file__))))
 from cwa.facts import Facts
 from cwa.engine import Engine, show
 from cwa.extract import ensure_facts
